@@ -236,6 +236,13 @@ def run(pid, tier, seed):
                 jobs.append((keys, {"S4_VERIF_SIGINT": trig, "S4_VERIF_PLAN_TIMEOUT_MS": "700"},
                              [("sig", "HFlag"), (lastw, "WStart"), (lastw, "TempRegister"), ("main", "Recv"),
                               ("main", "MainExit")], None, "plan:create-after-handler-pass"))
+            # a source that finished earlier leaves a stale path at the head of NAMED_TEMP_FILES: the handler must
+            # still remove the files listed after it.  The first worker runs to its end before the last one starts;
+            # SIGINT once the last one has listed its file; that worker is held after its FileInfo so that main
+            # exits while the file is still the worker's.
+            jobs.append((keys, {"S4_VERIF_SIGINT": "%s:TempRegister:0" % lastw, "S4_VERIF_HOLD": "%s:SendDone:0:250" % lastw,
+                                "S4_VERIF_PLAN_TIMEOUT_MS": "1500"},
+                         [("w0", "WReturn"), (lastw, "WStart")], None, "plan:stale-entry-before-live-file"))
             # turnstile: the handler's removal pass runs while the last worker sits between create and register
             jobs.append((keys, {"S4_VERIF_SIGINT": "w0:SendStart:0", "S4_VERIF_PLAN_TIMEOUT_MS": "700"},
                          [(lastw, "WStart"), ("sig", "HRemoved"), (lastw, "TempCreate"), ("main", "Recv"),
